@@ -15,7 +15,7 @@ RULE = ("random shots (twist 0) with 1-4 wind segments (speeds 0-60 ft/s, opposi
         "until-distances), zero-speed == none, appended zero wind, split segment, causality beyond D, left-right mirror, "
         "signs vs the no-wind twin, and windage at every row against the RK4 reference; a case = (shot, relation); "
         "non-trivial when at least one wind with non-zero speed switches inside the range")
-MUST_OBSERVE = ["rel_max_distance_keyword", "relations_checked", "rel_setter", "rel_permutation", "rel_zero_speed", "rel_append_zero", "rel_split", "rel_causality",
+MUST_OBSERVE = ["shots_with_relabelled_winds", "rel_max_distance_keyword", "relations_checked", "rel_setter", "rel_permutation", "rel_zero_speed", "rel_append_zero", "rel_split", "rel_causality",
                 "rel_mirror", "rel_sign_cross", "rel_sign_head_tail", "rel_reference", "reference_rows", "switch_inside_range",
                 "rel_differs_after_switch", "sign_drop_rows_judged"]
 ASSUMPTIONS = ["permutation is only required when all until-distances are distinct (ties have no defined order)",
@@ -61,6 +61,8 @@ def check_case(ctx, case):
     spec, r_ft, step = case["shot"], case["range_ft"], case["step_ft"]
     winds = spec["winds"]
     base, base_raised = rows_of(spec, r_ft, step)
+    if spec.get("relabel_seed") is not None:
+        ctx.count("shots_with_relabelled_winds")
     untils = [1e8 if w[2] is None else w[2] for w in winds]
     inside = any(w[0] > 0 and u < r_ft for w, u in zip(winds, untils))
     if inside:
@@ -288,6 +290,8 @@ def gen_case(rng):
         winds[-1][2] = None
     rng.shuffle(winds)
     s["winds"] = winds
+    if len(winds) >= 2 and rng.random() < 0.25:
+        s["relabel_seed"] = rng.getrandbits(30)        # every wind's quantities displayed in other units (in place, magnitudes untouched)
     if rng.random() < 0.2:
         s["wind_max_factor"] = round(rng.uniform(1.05, 11.5), 3)     # every bounded wind also carries max_distance_feet = until x factor
     return {"shot": s, "range_ft": r_ft, "step_ft": r_ft / rng.choice([6, 12, 20]), "perm": rng.choice(["reverse", "rotate"]),
